@@ -27,8 +27,9 @@ def notes_of(m):
 
 
 def build(game, notes, form, r):
-    hits = [{"offset": x["t"] * UNIT, "column": x["c"]} for x in notes if x["k"] == "hit"]
-    holds = [{"offset": x["t"] * UNIT, "column": x["c"], "length": x["n"] * UNIT} for x in notes if x["k"] == "hold"]
+    # (x["f"]: a dyadic fraction of a millisecond added after scaling, so that differences of times stay exact floats)
+    hits = [{"offset": x["t"] * UNIT + x.get("f", 0.0), "column": x["c"]} for x in notes if x["k"] == "hit"]
+    holds = [{"offset": x["t"] * UNIT + x.get("f", 0.0), "column": x["c"], "length": x["n"] * UNIT} for x in notes if x["k"] == "hold"]
     bpms = [{"offset": 0.0, "bpm": 120.0, "metronome": 4}]
     extra = {}
     if game in ("osu", "qua"):
@@ -98,7 +99,7 @@ def random_scenarios(n, tier):
         notes = []
         for _ in range(r.randint(1, 12)):
             kind = r.choice(["hit", "hit", "hold"])
-            notes.append({"t": r.choice([0, 1, 2, 3, 5, 8, 13]) + r.choice([0, 0, 0.25, 0.5, 0.0025, 0.4975]), "c": r.randint(0, 6),
+            notes.append({"t": r.choice([0, 1, 2, 3, 5, 8, 13]) + r.choice([0, 0, 0.25, 0.5]), "f": r.choice([0.0, 0.0, 0.25, 0.75]), "c": r.randint(0, 6),
                           "k": kind, "n": r.choice([0.5, 1, 2, 4]) if kind == "hold" else 0})
         out.append({"id": f"rnd{i}", "notes": notes, "gap": r.choice([0, 0.25, 1, 1.5, 2]), "thr": r.choice([0, 0.5, 1, 3])})
     return out
